@@ -268,7 +268,7 @@ pub fn scenarios(thorough: bool) -> Vec<ConnScenario> {
 pub fn check(rep: &Reporter) {
 	let thorough = rep.tier.thorough();
 	rep.set_rule(
-		"max_connections ∈ {0,1,2} (thorough 3); limit+1…limit+3 connections sharing one TowerServiceBuilder (one ConnectionGuard): HTTP requests whose handler parks ('being processed'), keep-alive follow-ups, WebSocket sessions closed by a close frame, reset mid-call, with an open subscription, an upgrade whose response is never read, an HTTP request aborted mid-call, server stop; the moment each peer connects and every later action are scheduling points, so every order of opens/closes/aborts is explored (whole tree or ≤K deviations); per scenario also the cfg points in the server's WebSocket tasks. Monitor: the number of connections certainly in service never exceeds the limit and agrees with ConnectionGuard::available_connections() read from the request extensions; every 429 is justified by a possibly-full server at some moment of the attempt (interval rule), so a slot that is not freed by some exit path shows as an unjustified refusal; no handler runs for a refused request.",
+		"max_connections ∈ {0,1,2} (thorough 3); limit+1…limit+3 connections sharing one TowerServiceBuilder (one ConnectionGuard): HTTP requests whose handler parks ('being processed'), keep-alive follow-ups, WebSocket sessions closed by a close frame, reset mid-call, with an open subscription, an upgrade whose response is never read, an HTTP request aborted mid-call, a protocol violation, a server-side close for ping inactivity (idle and with a call in flight), server stop; the moment each peer connects and every later action are scheduling points, so every order of opens/closes/aborts is explored (whole tree or ≤K deviations); per scenario also the cfg points in the server's WebSocket tasks. Monitor: the number of connections certainly in service never exceeds the limit and agrees with ConnectionGuard::available_connections() read from the request extensions; every 429 is justified by a possibly-full server at some moment of the attempt (interval rule), so a slot that is not freed by some exit path shows as an unjustified refusal; no handler runs for a refused request.",
 	);
 	rep.assume("a WebSocket session is in service from its handshake until on_session_closed() (also after a protocol violation by a hand-written peer that keeps its socket open); an HTTP request from being sent until its response is read (possible) / while its handler runs (certain)");
 	for s in scenarios(thorough) {
